@@ -807,9 +807,12 @@ def concat_from_sequence(node: ir.Node, op, state: OptimizerState) -> ReturnValu
             # Unsqueeze the inputs with concat axis if new_axis is 1
             axis_value = op.Constant(value_int=axis)
             unsqueezed_inputs = []
-            for node_input in inputs:
+            output_name = node.outputs[0].name
+            for i, node_input in enumerate(inputs):
+                # The same value may occur several times in the sequence (and in several sequences):
+                # derive the name from this node's output and the position.
                 unsqueezed_input = op.Unsqueeze(
-                    node_input, axis_value, _outputs=[f"{node_input.name}_unsqueeze"]
+                    node_input, axis_value, _outputs=[f"{output_name}_{i}_unsqueeze"]
                 )
                 unsqueezed_inputs.append(unsqueezed_input)
             # Send unsqueezed outputs to Concat
